@@ -356,7 +356,7 @@ func c16Run(c fw.Case) fw.Verdict {
 					if got != h {
 						s.fail("write-event-order", fmt.Sprintf("%s: expected the event of write %d (%s), got %s", s.name, i, short(h), short(got)))
 					}
-				case <-time.After(20 * time.Second):
+				case <-time.After(ackWait()):
 					s.fail("write-event-lost", fmt.Sprintf("%s: no EventWrite for write %d (%s) within the watchdog", s.name, i, short(h)))
 				}
 			}
@@ -410,18 +410,31 @@ func c16Run(c fw.Case) fw.Verdict {
 			}
 		}
 	}
-	// let subscribers drain
-	deadline := time.Now().Add(30 * time.Second)
-	for time.Now().Before(deadline) {
+	// let subscribers drain: as long as some subscriber still receives events the wait goes on (a slow
+	// consumer under a race build is not a lost event); only when nobody has received anything for a whole
+	// window while events are outstanding is the count judged
+	window := 20 * time.Second
+	if raceBuild() {
+		window = 60 * time.Second
+	}
+	lastTotal, lastChange := int64(-1), time.Now()
+	for {
 		done := true
+		var total int64
 		for _, s := range subs {
 			s.mu.Lock()
 			if len(s.writes) < len(acked) {
 				done = false
 			}
 			s.mu.Unlock()
+			total += atomic.LoadInt64(&s.n)
 		}
 		if done {
+			break
+		}
+		if total != lastTotal {
+			lastTotal, lastChange = total, time.Now()
+		} else if time.Since(lastChange) > window {
 			break
 		}
 		time.Sleep(2 * time.Millisecond)
@@ -504,6 +517,14 @@ func c16Run(c fw.Case) fw.Verdict {
 	}
 	v.Sample = map[string]interface{}{"type": typ, "writes": nw, "batches": nb, "subscribers": ps, "handler": handler, "lockstep": lockstep, "overflow_dequeues": arr["legacy.after-dequeue"]}
 	return v
+}
+
+// ackWait bounds the wait for one acknowledgement of an eager subscriber in lockstep mode.
+func ackWait() time.Duration {
+	if raceBuild() {
+		return 90 * time.Second
+	}
+	return 30 * time.Second
 }
 
 func subKind(name string) string {
